@@ -90,7 +90,7 @@ Proof.
   intros T compat attribute frs frs' Hne H H' E.
   assert (Hne' : frs' <> []).
   { intro; subst frs'. destruct frs; [congruence|discriminate]. }
-  unfold decoder, decode_graph.
+  unfold decoder, decoder_c, decode_graph_c.
   rewrite (tokenize_all_frags frs compat Hne H), (tokenize_all_frags frs' compat Hne' H').
   replace (map (fun fr => let ts := filter not_nop (symbols fr) in
                           if compat then modernize_all ts None else (ts, None)) frs')
